@@ -485,14 +485,38 @@ pub fn closure_body(ctx: &Arc<RunCtx>, op: OpId, p: &mut Payload) -> u64 {
             }
             Step::FireStashed => { let ws: Vec<Waker> = ctx.stashed_wakers.lock().unwrap().clone(); for w in ws { w.wake_by_ref(); } }
             Step::Pause => pause(ctx),
-            Step::Yield | Step::Gate(_) | Step::WakeOnly | Step::StashWaker => { /* future-only steps are ignored in closures */ }
+            Step::Yield | Step::Gate(_) | Step::WakeOnly | Step::StashWaker | Step::Retain => { /* future-only steps are ignored in closures */ }
         }
     }
     span.finish();
     ctx.token(op)
 }
 
+/// A future that keeps what its body left in `kept` until the future object is dropped (completion alone does not release it)
+pub struct Retaining<'a> { inner: BoxFuture<'a, u64>, kept: Arc<Mutex<Option<Span>>> }
+impl<'a> Future for Retaining<'a> {
+    type Output = u64;
+    fn poll(mut self: Pin<&mut Self>, cx: &mut Context<'_>) -> Poll<u64> { self.inner.as_mut().poll(cx) }
+}
+impl<'a> Drop for Retaining<'a> {
+    fn drop(&mut self) {
+        // the operation's last access to the value happens here (in Span::drop), a little while after the drop began
+        if let Some(span) = self.kept.lock().unwrap().take() {
+            if span.ctx.native { let t = std::time::Instant::now(); while t.elapsed().as_micros() < 150 { std::hint::spin_loop(); } } else { thread::yield_now(); }
+            std::mem::drop(span);
+        }
+    }
+}
+
 pub fn future_body<'a>(ctx: Arc<RunCtx>, op: OpId, p: &'a mut Payload) -> BoxFuture<'a, u64> {
+    if ctx.prog.ops[op].body.last() == Some(&Step::Retain) {
+        let kept = Arc::new(Mutex::new(None));
+        return Retaining { inner: future_steps(ctx, op, p, Some(Arc::clone(&kept))), kept }.boxed();
+    }
+    future_steps(ctx, op, p, None)
+}
+
+fn future_steps<'a>(ctx: Arc<RunCtx>, op: OpId, p: &'a mut Payload, keep: Option<Arc<Mutex<Option<Span>>>>) -> BoxFuture<'a, u64> {
     async move {
         let span = Span::enter(&ctx, op, p);
         let n = ctx.prog.ops[op].body.len();
@@ -507,10 +531,14 @@ pub fn future_body<'a>(ctx: Arc<RunCtx>, op: OpId, p: &'a mut Payload) -> BoxFut
                 Step::StashWaker => WakeNow { stash: Some(Arc::clone(&ctx)) }.await,
                 Step::FireStashed => { let ws: Vec<Waker> = ctx.stashed_wakers.lock().unwrap().clone(); for w in ws { w.wake_by_ref(); } }
                 Step::Pause => pause(&ctx),
-                Step::Hold(_) | Step::DropMortal => {}
+                Step::Hold(_) | Step::DropMortal | Step::Retain => {}
             }
         }
-        span.finish();
+        match keep {
+            // the body is complete, but the future goes on holding the value until it is dropped
+            Some(slot) => { let mut span = span; span.done = true; *slot.lock().unwrap() = Some(span); }
+            None => span.finish(),
+        }
         ctx.token(op)
     }.boxed()
 }
